@@ -114,9 +114,11 @@ def _gzip_members(data):
     return out
 
 
-def split_members(data, compressed):
-    """Member list; for compressed files a complete gzip member whose content is not exactly one well framed
-    record keeps gz-level st 'complete' in field 'gzst' but gets st 'junk' (the record is what counts)."""
+def split_members(data, compressed, lenient=False):
+    """Member list.  For compressed files: one entry per gzip member; a finished gzip member whose content is not a
+    sequence of complete records (strict framing by Content-Length) gets st 'junk' - except with lenient=True, where
+    a member that begins with the version line, has a header end and ends with CRLF CRLF counts as ONE record
+    delimited by the member itself (so that a wrong Content-Length is reported as such by the caller)."""
     if not compressed:
         ms = _plain_members(data)
         for m in ms:
@@ -131,9 +133,11 @@ def split_members(data, compressed):
         inner = _plain_members(m['raw'])
         m['nrec'] = sum(1 for i in inner if i['st'] == 'complete')
         if not inner or any(i['st'] != 'complete' for i in inner):
-            # a finished gzip member whose content is not a sequence of complete records (several complete
-            # records in one member stay 'complete' and are flagged through nrec)
-            m['st'] = 'junk'
+            raw = m['raw']
+            if lenient and raw.startswith(VERSION_LINE) and b'\r\n\r\n' in raw[:-4] and raw.endswith(b'\r\n\r\n'):
+                m['nrec'] = 1
+            else:
+                m['st'] = 'junk'
     return ms
 
 
@@ -254,25 +258,31 @@ def parse_record(raw):
 
 # ------------------------------------------------------------------------------------------- cdx, journal
 def read_cdx(data):
-    """-> (header_ok, [dict(url, ts, mime, status, digest, len, off, file, rid, wellformed)])"""
+    """-> (header_ok, [dict(url, mime, status, digest, len, off, file, rid, wellformed)]).
+    The columns are taken from the legend line (' CDX a b m s k S V g u': delimiter, 'CDX', field letters)."""
     text = data.decode('utf-8', 'replace')
     lines = text.split('\n')
     if lines and lines[-1] == '':
         lines.pop()
     if not lines:
         return False, []
-    header_ok = lines[0] == ' CDX a b m s k S V g u'
+    legend = lines[0]
+    delim = legend[:1]
+    letters = legend[1:].split(delim) if delim else []
+    header_ok = bool(delim) and not delim.isalnum() and letters[:1] == ['CDX'] and \
+        all(x in letters for x in ('a', 'm', 's', 'k', 'S', 'V', 'g', 'u'))
+    cols = letters[1:]
     out = []
     for ln in lines[1:]:
-        parts = ln.split(' ')
-        if len(parts) != 9:
+        parts = ln.split(delim) if delim else [ln]
+        if not header_ok or len(parts) != len(cols):
             out.append({'wellformed': False, 'raw': ln})
             continue
-        url, ts, mime, status, digest, size, off, fname, rid = parts
+        d = dict(zip(cols, parts))
         try:
-            rec = {'wellformed': True, 'url': url, 'ts': ts, 'mime': mime,
-                   'status': int(status) if status.isdigit() else -1,
-                   'digest': digest, 'len': int(size), 'off': int(off), 'file': fname, 'rid': rid}
+            rec = {'wellformed': True, 'url': d['a'], 'mime': d['m'],
+                   'status': int(d['s']) if d['s'].isdigit() else -1,
+                   'digest': d['k'], 'len': int(d['S']), 'off': int(d['V']), 'file': d['g'], 'rid': d['u']}
         except ValueError:
             rec = {'wellformed': False, 'raw': ln}
         out.append(rec)
@@ -280,11 +290,15 @@ def read_cdx(data):
 
 
 def read_journal(data):
+    """-> ('absent' | 'empty' | 'bad' | 'offset', n): the journal names the length of the archive before the append
+    in a line  offset:<n>  (any other complete lines are accepted)."""
     if data is None:
         return 'absent', 0
     if data == b'':
         return 'empty', 0
-    m = re.match(rb'^wpull-journal-version:1\noffset:([0-9]+)\n$', data)
-    if m:
-        return 'offset', int(m.group(1))
+    if not data.endswith(b'\n'):
+        return 'bad', 0
+    m = re.findall(rb'(?m)^offset:[ \t]*([0-9]+)[ \t]*$', data)
+    if len(m) == 1:
+        return 'offset', int(m[0])
     return 'bad', 0
